@@ -100,14 +100,14 @@ type VerifPending struct {
 func (c *RemoteClient) VerifAddPending(typ uint64, hash bitcoin.Hash32, height int) (*VerifPending, error) {
 	ch := make(chan *Message, 1)
 	r := &request{typ: typ, hash: hash, height: height, response: ch}
-	if err := c.addRequest(r, c.MessageTimeout()); err != nil {
+	if err := c.addRequest(r, 5*time.Second); err != nil { // harness-initiated: not the time-out under test
 		return nil, err
 	}
 	return &VerifPending{req: r, Ch: ch}, nil
 }
 
 func (c *RemoteClient) VerifRemovePending(p *VerifPending) error {
-	return c.removeRequest(p.req, c.MessageTimeout())
+	return c.removeRequest(p.req, 5*time.Second) // harness-initiated: not the time-out under test
 }
 
 // VerifIsPending: call after VerifBarrier (the requests goroutine is then idle).
